@@ -38,6 +38,8 @@ SCOPE = {"quick": "701 datasets (n<=3,m<=2) x 4 schemes (stand-in configurations
          "thorough": "701 datasets x 25 schemes + 72 mixed-name cases + 40000 sampled pairs n<=6 (8000 through CBC) + 400 "
                      "pairs with n in 7..8 (optimum by subset DP, one ranking requested); all-optima sets n<=5"}
 CHUNK = 4
+# every 8th case is run a second time with its datasets reached through a history (vlib.t2run._with_histories)
+VIA_EVERY = {"quick": 8, "thorough": 8}
 TIMEOUT = 600
 ASSUMPTIONS = ["cplex stand-in: /verif/bounded/standin_cplex.py replaces the proprietary cplex module (complete 0/1 "
                "enumeration up to 30 variables, CBC on the same rows beyond); it validates argument lengths like CPLEX and "
